@@ -10,6 +10,7 @@ import scfam
 import tempfam
 import tevalfam
 import interpfam
+import provfam
 from vlib import InfraError
 
 CHECKS = {}
@@ -28,6 +29,8 @@ def replay(ctx, path):
     fam = obj.get("replay_family", "eval")
     if fam == "eval":
         return evalfam.replay(ctx, obj)
+    if fam == "prov":
+        return provfam.replay(ctx, obj)
     if fam == "interp":
         return interpfam.replay(ctx, obj)
     if fam == "teval":
@@ -108,3 +111,8 @@ def c14(ctx):
 @register("C16")
 def c16(ctx):
     return interpfam.check_c16(ctx)
+
+
+@register("C15")
+def c15(ctx):
+    return provfam.check_c15(ctx)
